@@ -242,3 +242,117 @@ def translate(src, header_regex, paths, funcs, subst):
     for a, b in subst:
         term = re.sub(r"(?<![A-Za-z_0-9.])" + re.escape(a) + r"(?![A-Za-z_0-9])", b, term)
     return term
+
+
+# ---------------------------------------------------------------------------------------------
+# "effect blocks": the body of a `for` loop whose only effects are `<acc> += 1`, `<acc> -= 1` and an early
+# `return <X>;` — translated to a Lean expression of type `Option Int` (`none` = early return, `some d` =
+# increment of the accumulator for this iteration).
+
+class EffectParser(Parser):
+    def __init__(self, toks, paths, funcs, acc):
+        super().__init__(toks, paths, funcs)
+        self.acc = acc
+
+    def eblock(self, cont):
+        """parse `{ stmts }` and return its Lean value given the value `cont` of what follows the block"""
+        self.eat("op", "{")
+        v = self.estmts(cont)
+        self.eat("op", "}")
+        return v
+
+    def estmts(self, cont):
+        while self.at(";"):
+            self.eat()
+        if self.at("}"):
+            return cont
+        if self.at("let"):
+            self.eat()
+            name = self.eat("id")[1]
+            self.eat("op", "=")
+            e = self.expr()
+            self.eat("op", ";")
+            return "(let %s := %s; %s)" % (name, e, self.estmts(cont))
+        if self.at("return"):
+            self.eat()
+            self.expr()
+            if self.at(";"):
+                self.eat()
+            self.skip_rest()
+            return "none"
+        if self.peek() == ("id", self.acc):
+            self.eat()
+            op = self.eat("op")[1]
+            self.eat("op", "=")
+            amount = self.eat("num")[1]
+            if op not in ("+", "-"):
+                raise TranslateError("unsupported update of the accumulator")
+            if self.at(";"):
+                self.eat()
+            if not self.at("}"):
+                raise TranslateError("statements after an accumulator update are outside the fragment")
+            return "some (%s%s)" % ("-" if op == "-" else "", amount)
+        if self.at("if"):
+            # if c {A} [else if d {B}]* [else {C}] ; rest   — the continuation is duplicated into every arm
+            save = self.i
+            rest_val = None
+            # first pass: find the end of the whole if-chain to evaluate `rest` once
+            self.skip_if_chain()
+            rest_val = self.estmts(cont)
+            end = self.i
+            self.i = save
+            v = self.eif(rest_val)
+            self.i = end
+            return v
+        raise TranslateError("statement outside the effect fragment near %s" % (self.peek(),))
+
+    def eif(self, cont):
+        self.eat("id", "if")
+        c = self.expr()
+        a = self.eblock(cont)
+        if self.at("else"):
+            self.eat()
+            b = self.eif(cont) if self.at("if") else self.eblock(cont)
+        else:
+            b = cont
+        return "(if %s then %s else %s)" % (c, a, b)
+
+    def skip_balanced(self):
+        self.eat("op", "{")
+        depth = 1
+        while depth:
+            tk = self.eat()
+            if tk == ("op", "{"): depth += 1
+            elif tk == ("op", "}"): depth -= 1
+
+    def skip_if_chain(self):
+        self.eat("id", "if")
+        while not self.at("{"):
+            self.eat()
+        self.skip_balanced()
+        if self.at("else"):
+            self.eat()
+            if self.at("if"):
+                self.skip_if_chain()
+            else:
+                self.skip_balanced()
+
+    def skip_rest(self):
+        depth = 0
+        while True:
+            tk = self.peek()
+            if tk == ("op", "}") and depth == 0:
+                return
+            if tk == ("op", "{"): depth += 1
+            if tk == ("op", "}"): depth -= 1
+            self.eat()
+
+
+def translate_effect_loop(src, loop_regex, paths, funcs, subst, acc):
+    """`loop_regex` must match up to and including the `{` that opens the loop body"""
+    body = fn_body(src, loop_regex)
+    p = EffectParser(tokenize(body), paths, funcs, acc)
+    term = p.eblock("some 0")
+    for a, b in subst:
+        term = re.sub(r"(?<![A-Za-z_0-9.])" + re.escape(a) + r"(?![A-Za-z_0-9])", b, term)
+    return term
